@@ -184,19 +184,20 @@ pub async fn ssl_request(stream: &mut TcpStream) -> Result<(), Error> {
 pub fn parse_params(mut bytes: BytesMut) -> Result<HashMap<String, String>, Error> {
     let mut result = HashMap::new();
     let mut buf = Vec::new();
-    let mut tmp = String::new();
+    // Collect bytes, not chars: the strings are UTF-8.
+    let mut tmp: Vec<u8> = Vec::new();
 
     while bytes.has_remaining() {
         let mut c = bytes.get_u8();
 
         // Null-terminated C-strings.
         while c != 0 {
-            tmp.push(c as char);
+            tmp.push(c);
             c = bytes.get_u8();
         }
 
         if !tmp.is_empty() {
-            buf.push(tmp.clone());
+            buf.push(String::from_utf8_lossy(&tmp).to_string());
             tmp.clear();
         }
     }
